@@ -19,7 +19,11 @@ type block struct {
 	tag    int
 	height uint64
 	parent int // tag of the parent, 0 for a genesis block
+	shape  string
 	built  *chainkit.Built
+	// a well-formed transaction + receipt that is NOT in the block (for the "tx" corruption)
+	spareTx core.Transaction
+	spareRc *core.TransactionReceipt
 }
 
 // SrcStep replaces the last Drop blocks of the current chain by Add fresh ones (Drop = 0: extend).
@@ -34,10 +38,49 @@ type world struct {
 	gen      *chainkit.Gen
 	blocks   map[int]*block
 	byHash   map[felt.Felt]int
-	versions [][]int // versions[0] is version 1
+	versions [][]int        // versions[0] is version 1
 	digests  map[int]string // content of every block when it was built
 	nextTag  int
 	tip      *chainkit.Node // twin node holding the last version
+	shapes   map[int]string // scenario: shape of a tag, overriding the default
+}
+
+// Block shapes: WHICH PARTS of a block are populated (the Shapes of spec/chain/BlockVerify.tla; the
+// EmptyDiff set of spec/sync/Sync.tla is {empty, emptydiff}).
+//
+//	full       one transaction, a storage write and a nonce update
+//	multi      three transactions of different kinds, a storage write and a nonce update
+//	empty      no transaction, no state-diff entry: only the header distinguishes it
+//	emptydiff  transactions (with events) but no state-diff entry
+//	nonceonly  one transaction; the diff is a single nonce update (no storage section)
+//	declare    one transaction; the diff only declares a Cairo-0 class (an entry that leaves the state
+//	           commitment where it is)
+//
+// For empty / emptydiff / declare the state commitment after the block equals the one before it: the
+// root checks of Store are all that separates the honest block from a re-sealed forgery of its roots.
+var shapeNames = []string{"full", "multi", "empty", "emptydiff", "nonceonly", "declare"}
+
+func defaultShape(tag int, height uint64) string {
+	switch {
+	case height == 0:
+		return "full" // (plus the genesis class and contracts)
+	case tag%5 == 0:
+		return "empty"
+	case tag%7 == 3:
+		return "multi"
+	case tag%10 == 2:
+		return "emptydiff"
+	case tag%10 == 7:
+		return "nonceonly"
+	case tag%10 == 9:
+		return "declare"
+	}
+	return "full"
+}
+
+func (w *world) emptyDiff(tag int) bool {
+	sh := w.blocks[tag].shape
+	return w.blocks[tag].height > 0 && (sh == "empty" || sh == "emptydiff")
 }
 
 var (
@@ -46,10 +89,24 @@ var (
 	addrs    = []uint64{0x100, 0x101, 0x102}
 )
 
-func newWorld(seed int64, newState bool, initLen int, plan []SrcStep) (*world, error) {
+func newWorld(seed int64, newState bool, initLen int, plan []SrcStep, shapes map[string]string) (*world, error) {
 	w := &world{
 		newState: newState, gen: chainkit.NewGen(seed), blocks: map[int]*block{},
-		byHash: map[felt.Felt]int{}, nextTag: 1, digests: map[int]string{},
+		byHash: map[felt.Felt]int{}, nextTag: 1, digests: map[int]string{}, shapes: map[int]string{},
+	}
+	for k, v := range shapes {
+		var t int
+		if _, err := fmt.Sscanf(k, "%d", &t); err != nil || t < 1 {
+			return nil, fmt.Errorf("bad tag %q in shapes", k)
+		}
+		ok := false
+		for _, n := range shapeNames {
+			ok = ok || n == v
+		}
+		if !ok {
+			return nil, fmt.Errorf("unknown shape %q", v)
+		}
+		w.shapes[t] = v
 	}
 	w.tip = chainkit.NewNode(nil, newState)
 	var chain []int
@@ -109,21 +166,32 @@ func (w *world) appendBlock(n *chainkit.Node) (*block, error) {
 			d.DeployedContracts[*chainkit.F(a)] = &ch
 		}
 	}
-	// shapes: most blocks carry one transaction and one storage write; some are EMPTY (no transaction, empty
-	// state diff — only the header distinguishes them), some carry several transactions of different kinds
+	// shapes (see shapeNames): most blocks carry one transaction and one storage write
 	var (
 		txs []core.Transaction
 		rcs []*core.TransactionReceipt
 	)
-	ntx := 1
-	switch {
-	case height > 0 && tag%5 == 0:
-		ntx = 0
-	case tag%7 == 3:
-		ntx = 3
+	shape := defaultShape(tag, height)
+	if s, ok := w.shapes[tag]; ok && height > 0 {
+		shape = s
 	}
-	if ntx > 0 {
-		addr := *chainkit.F(addrs[tag%len(addrs)])
+	ntx := 1
+	addr := *chainkit.F(addrs[tag%len(addrs)])
+	switch shape {
+	case "empty":
+		ntx = 0
+	case "emptydiff":
+		ntx = 1 + tag%2
+	case "nonceonly":
+		d.Nonces[addr] = chainkit.F(uint64(tag))
+	case "declare":
+		ch, cls := w.gen.Cairo0Class()
+		d.DeclaredV0Classes = append(d.DeclaredV0Classes, &ch)
+		classes[ch] = cls
+	case "multi":
+		ntx = 3
+		fallthrough
+	default:
 		// never a zero value: the legacy backend cannot revert a no-op zero write (C04's finding)
 		d.StorageDiffs[addr] = map[felt.Felt]*felt.Felt{*chainkit.F(uint64(1 + tag%4)): chainkit.F(uint64(1000 + tag))}
 		d.Nonces[addr] = chainkit.F(uint64(tag))
@@ -144,7 +212,9 @@ func (w *world) appendBlock(n *chainkit.Node) (*block, error) {
 	if err != nil {
 		return nil, fmt.Errorf("build block tag %d height %d: %w", tag, height, err)
 	}
-	b := &block{tag: tag, height: height, parent: parent, built: built}
+	b := &block{tag: tag, height: height, parent: parent, shape: shape, built: built}
+	b.spareTx = w.gen.Tx(txKinds[(tag+4)%len(txKinds)])
+	b.spareRc = w.gen.Receipt(b.spareTx, nil)
 	w.blocks[tag] = b
 	w.byHash[*built.Block.Hash] = tag
 	w.digests[tag] = digest(built.Block, built.Update)
@@ -161,7 +231,7 @@ func (w *world) oldFormat(tag int) bool { return w.blocks[tag].built.Block.Proto
 // the forged copy is expected to pass it (noted otherwise: the kind then degenerates to "bad").
 func (w *world) selfCheck() (accepted []string, forgedRejected bool) {
 	for tag, b := range w.blocks {
-		for _, c := range append(append([]string{}, corruptions...), "", forgery) {
+		for _, c := range append(append(append([]string{}, corruptions...), ""), forgeries...) {
 			if w.oldFormat(tag) && (c == "receipt" || c == "diff") {
 				continue
 			}
@@ -170,7 +240,7 @@ func (w *world) selfCheck() (accepted []string, forgedRejected bool) {
 			switch {
 			case c == "" && err != nil:
 				accepted = append(accepted, fmt.Sprintf("valid:%s", b.built.Block.ProtocolVersion))
-			case c == forgery:
+			case isForgery(c):
 				forgedRejected = forgedRejected || err != nil
 			case c != "" && err == nil:
 				accepted = append(accepted, c)
@@ -223,14 +293,27 @@ func (w *world) has(ver int, tag int) bool {
 	return false
 }
 
-// Corruption kinds: a deep-enough copy of the block with exactly one field altered.
-var corruptions = []string{"hash", "parent", "timestamp", "receipt", "diff", "root"}
+// Corruption kinds: a deep-enough copy of the block with exactly one field altered. All but "hash"
+// leave the header's Hash as it is: altered content UNDER THE HONEST HASH ("tx": the first
+// transaction is replaced by another well-formed one, its receipt follows).
+var corruptions = []string{"hash", "parent", "timestamp", "receipt", "diff", "root", "tx"}
 
-// forgery: the state diff is altered and the block hash recomputed over the altered block, so that
-// header, hash and claimed roots are mutually consistent (for a pre-0.13.2 block the hash does not
-// commit to the diff and stays as it is). SanityCheckNewHeight accepts such a block; only the
-// recomputation of the state root in Store can reject it.
+// keepsHash: the corrupted copy claims the hash of the honest block.
+var keepsHash = []string{"timestamp", "receipt", "diff", "root", "tx"}
+
+// Forgeries: SanityCheckNewHeight accepts such a block (header, hash and state update are mutually
+// consistent); only the state-root checks in Store can reject it.
+//
+//	diff-resealed  the state diff is altered and the block hash recomputed over the altered block (for
+//	               a pre-0.13.2 block the hash does not commit to the diff and stays as it is)
+//	root-resealed  the claimed new state root (header and state update) is altered and the block hash
+//	               recomputed; the diff is the honest one
+//	oldroot        the state update's old root is altered (nothing in the block commits to it)
 const forgery = "diff-resealed"
+
+var forgeries = []string{forgery, "root-resealed", "oldroot"}
+
+func isForgery(c string) bool { return c == forgery || c == "root-resealed" || c == "oldroot" }
 
 // specCorr maps a corruption kind to what the revert loop (which looks at Hash and ParentHash of an
 // unverified block only) can see of it.
@@ -240,6 +323,12 @@ func specCorr(kind string) string {
 		return kind
 	case "":
 		return "none"
+	case forgery:
+		return "diff"
+	case "root-resealed":
+		return "root"
+	case "oldroot":
+		return "oldroot"
 	}
 	return "other"
 }
@@ -255,8 +344,16 @@ func (w *world) committed(tag int, corr string) jsync.CommittedBlock {
 	hc := *b.Block.Header
 	blk := &core.Block{Header: &hc, Transactions: b.Block.Transactions, Receipts: b.Block.Receipts}
 	su := *b.Update
-	if corr == "receipt" && len(blk.Receipts) == 0 { // an empty block has no receipt to corrupt
+	if (corr == "receipt" || corr == "tx") && len(blk.Receipts) == 0 { // an empty block has no receipt to corrupt
 		corr = "timestamp"
+	}
+	reseal := func(sd *core.StateDiff) {
+		h, _, err := core.BlockHash(blk, sd, chainkit.Network, nil, core.DeprecatedTrieBackend)
+		if err != nil {
+			panic("reseal: " + err.Error())
+		}
+		hc.Hash = &h
+		su.BlockHash = &h
 	}
 	switch corr {
 	case "":
@@ -295,15 +392,22 @@ func (w *world) committed(tag int, corr string) jsync.CommittedBlock {
 		}
 		su.StateDiff = &sd
 		if corr == forgery {
-			h, _, err := core.BlockHash(blk, &sd, chainkit.Network, nil, core.DeprecatedTrieBackend)
-			if err != nil {
-				panic("reseal: " + err.Error())
-			}
-			hc.Hash = &h
-			su.BlockHash = &h
+			reseal(&sd)
 		}
 	case "root":
 		su.NewRoot = bump(su.NewRoot)
+	case "tx":
+		w0 := w.blocks[tag]
+		txs := append([]core.Transaction{}, blk.Transactions...)
+		rcs := append([]*core.TransactionReceipt{}, blk.Receipts...)
+		txs[0], rcs[0] = w0.spareTx, w0.spareRc
+		blk.Transactions, blk.Receipts = txs, rcs
+	case "root-resealed":
+		nr := bump(su.NewRoot)
+		hc.GlobalStateRoot, su.NewRoot = nr, nr
+		reseal(su.StateDiff)
+	case "oldroot":
+		su.OldRoot = bump(su.OldRoot)
 	default:
 		panic("unknown corruption " + corr)
 	}
